@@ -285,14 +285,6 @@ func TestC35(t *testing.T) {
 				r.Violation(t, "text-form", "permission %d prints as %q, documented form is %q", p, b, c35RefPermText(p))
 			}
 
-			acl := w.newACL(t)
-			yaml := fmt.Sprintf("%s:\n  s1: %s\n", w.u1, b)
-			c35Import(t, acl, w, yaml)
-
-			got, _ := acl.Allow(w.u1, "s1", launch.ReadAllowACLPerm)
-			if got != perm {
-				r.Violation(t, "text-roundtrip", "permission %d written as %q in a table is loaded as %d", p, b, uint8(got))
-			}
 		}
 
 		r.CaseN(c35Super, c35Super, "part:text")
@@ -381,6 +373,28 @@ func TestC35(t *testing.T) {
 		}
 
 		r.Extra("exhaustive_tables", total)
+	})
+
+	// ---- A'. the same 79 values through the table loader: the entry comes back as the assigned permission
+	t.Run("text-in-table", func(t *testing.T) {
+		if r.Shard != 0 {
+			return
+		}
+
+		for p := 1; p <= c35Super; p++ {
+			perm := launch.ACLPerm(p)
+
+			acl := w.newACL(t)
+			yaml := fmt.Sprintf("%s:\n  s1: %s\n", w.u1, perm.String())
+			c35Import(t, acl, w, yaml)
+
+			got, _ := acl.Allow(w.u1, "s1", launch.ReadAllowACLPerm)
+			if got != perm {
+				r.Violation(t, "text-roundtrip", "permission %d written as %q in a table is loaded as %d", p, perm.String(), uint8(got))
+			}
+		}
+
+		r.CaseN(c35Super, c35Super, "part:text-in-table")
 	})
 
 	r.Exhaustive(true)
